@@ -119,4 +119,71 @@ static inline int ref_UOV_MUL (ref_u64 a, ref_u64 b) {
 REF_FP (float, F)
 REF_FP (double, D)
 REF_FP (long double, LD)
+
+/* ---- additions for whole-program references (tools/mir2ref.py), from MIR.md ----
+   "MIR insn operands / Memory operands": integer type input memory is transformed to a 64-bit integer
+   value with sign or zero extension depending on signedness of the type; a result 64-bit integer value
+   is truncated to the integer memory type.  Addresses are 64-bit integer values. */
+#include <string.h>
+#define REF_MEM_INT(N, T)                                                                             \
+  static inline ref_u64 ref_ld_##N (ref_u64 a) { return (ref_u64) (ref_i64) *(const T *) (uintptr_t) a; } \
+  static inline void ref_st_##N (ref_u64 a, ref_u64 x) { *(T *) (uintptr_t) a = (T) x; }
+REF_MEM_INT (i8, int8_t)
+REF_MEM_INT (i16, int16_t)
+REF_MEM_INT (i32, int32_t)
+REF_MEM_INT (i64, int64_t)
+#define REF_MEM_UINT(N, T)                                                                            \
+  static inline ref_u64 ref_ld_##N (ref_u64 a) { return (ref_u64) *(const T *) (uintptr_t) a; } \
+  static inline void ref_st_##N (ref_u64 a, ref_u64 x) { *(T *) (uintptr_t) a = (T) x; }
+REF_MEM_UINT (u8, uint8_t)
+REF_MEM_UINT (u16, uint16_t)
+REF_MEM_UINT (u32, uint32_t)
+REF_MEM_UINT (u64, uint64_t)
+REF_MEM_UINT (p, uint64_t)
+#define REF_MEM_FP(N, T)                                                                              \
+  static inline T ref_ld_##N (ref_u64 a) { return *(const T *) (uintptr_t) a; } \
+  static inline void ref_st_##N (ref_u64 a, T x) { *(T *) (uintptr_t) a = x; }
+REF_MEM_FP (f, float)
+REF_MEM_FP (d, double)
+REF_MEM_FP (ld, long double)
+/* "MIR_CALL insn": integer arguments are truncated according to the integer prototype argument type;
+   "MIR function": an argument variable of any integer type actually has type MIR_T_I64 (the declared type
+   says how the value is passed) - so the callee sees the truncated value extended per its declared type.
+   "MIR_RET insn": a 64-bit integer value is truncated to the corresponding function return type first;
+   the call's result operand receives that value (extended per the type's signedness). */
+#define REF_NARROW(N, T)                                                                \
+  static inline ref_u64 ref_arg_##N (ref_u64 x) { return (ref_u64) (ref_i64) (T) x; }   \
+  static inline ref_u64 ref_res_##N (ref_u64 x) { return (ref_u64) (ref_i64) (T) x; }
+REF_NARROW (i8, int8_t)
+REF_NARROW (i16, int16_t)
+REF_NARROW (i32, int32_t)
+REF_NARROW (i64, int64_t)
+#define REF_NARROW_U(N, T)                                                   \
+  static inline ref_u64 ref_arg_##N (ref_u64 x) { return (ref_u64) (T) x; }   \
+  static inline ref_u64 ref_res_##N (ref_u64 x) { return (ref_u64) (T) x; }
+REF_NARROW_U (u8, uint8_t)
+REF_NARROW_U (u16, uint16_t)
+REF_NARROW_U (u32, uint32_t)
+REF_NARROW_U (u64, uint64_t)
+REF_NARROW_U (p, uint64_t)
+/* conversions ("MIR floating point insns" table): C conversion semantics; float->int of a value outside the
+   int64 range (or NaN) is undefined: REF_PRE_x2I */
+static inline float ref_I2F (ref_u64 a) { return (float) (ref_i64) a; }
+static inline double ref_I2D (ref_u64 a) { return (double) (ref_i64) a; }
+static inline long double ref_I2LD (ref_u64 a) { return (long double) (ref_i64) a; }
+static inline float ref_UI2F (ref_u64 a) { return (float) a; }
+static inline double ref_UI2D (ref_u64 a) { return (double) a; }
+static inline long double ref_UI2LD (ref_u64 a) { return (long double) a; }
+static inline int ref_PRE_F2I (float a) { return a == a && a >= -9223372036854775808.0f && a < 9223372036854775808.0f; }
+static inline int ref_PRE_D2I (double a) { return a == a && a >= -9223372036854775808.0 && a < 9223372036854775808.0; }
+static inline int ref_PRE_LD2I (long double a) { return a == a && a >= -9223372036854775808.0L && a < 9223372036854775808.0L; }
+static inline ref_u64 ref_F2I (float a) { return (ref_u64) (ref_i64) a; }
+static inline ref_u64 ref_D2I (double a) { return (ref_u64) (ref_i64) a; }
+static inline ref_u64 ref_LD2I (long double a) { return (ref_u64) (ref_i64) a; }
+static inline double ref_F2D (float a) { return (double) a; }
+static inline long double ref_F2LD (float a) { return (long double) a; }
+static inline float ref_D2F (double a) { return (float) a; }
+static inline long double ref_D2LD (double a) { return (long double) a; }
+static inline float ref_LD2F (long double a) { return (float) a; }
+static inline double ref_LD2D (long double a) { return (double) a; }
 #endif
